@@ -86,7 +86,7 @@ def scenarios(rnd, tier):
                ["Good", "Other", "NotIface"], ["NotIface"], ["GenNot"], ["F"], ["V"], [], [""], [":"], ["Good:"],
                [":X"], ["Good", ""], ["Gööd"]]
     outs = [None, "svc/good_moq.go", "svc/sub/deep/mock.go", "gen/mocks/out.go", "plainfile/x.go", "svc"]
-    priors = ["absent", "own", "garbage", "stale", "dirnonempty"]
+    priors = ["absent", "own", "garbage", "stale", "otherpkg", "dirnonempty"]
     # (three more kinds of prior content - ownlonger, ownnoop, ownresets - are used below)
     # systematic core
     for args in argsets:
@@ -177,6 +177,9 @@ def prime(root, s, own_text):
         open(p, "w").write("\x00\x01 this is not go {{{\n")
     elif s["prior"] == "stale":
         open(p, "w").write(STALE)
+    elif s["prior"] == "otherpkg":
+        # a valid Go file of *another* package (left over from before a rename, or from another -pkg)
+        open(p, "w").write("package elsewhere\n\n// Leftover is all that is here.\ntype Leftover struct{}\n")
 
 
 _GOFMT = []
